@@ -74,6 +74,26 @@ class ClassicalBasisState(qis.QuantumStateRepresentation):
         """
         return [self.basis[i] for i in axes]
 
+    def kron(self, other: ClassicalBasisState) -> ClassicalBasisState:
+        """Joins two state spaces together."""
+        return ClassicalBasisState(initial_state=[*self.basis, *other.basis])
+
+    def factor(
+        self, axes: Sequence[int], *, validate=True, atol=1e-07
+    ) -> tuple[ClassicalBasisState, ClassicalBasisState]:
+        """Splits two state spaces (a basis state always factors)."""
+        extracted = [self.basis[i] for i in axes]
+        remainder = [b for i, b in enumerate(self.basis) if i not in axes]
+        return ClassicalBasisState(extracted), ClassicalBasisState(remainder)
+
+    def reindex(self, axes: Sequence[int]) -> ClassicalBasisState:
+        """Reorders the digits of the basis state."""
+        return ClassicalBasisState(initial_state=[self.basis[i] for i in axes])
+
+    @property
+    def supports_factor(self) -> bool:
+        return True
+
 
 class ClassicalBasisSimState(SimulationState[ClassicalBasisState]):
     """Represents the state of a quantum simulation using classical basis states."""
